@@ -14,3 +14,11 @@ const RaceBuild = true
 // be reported.
 func hideSync()   { runtime.RaceDisable() }
 func unhideSync() { runtime.RaceEnable() }
+
+// LongCap shortens a long history for binaries built with the race detector.
+func LongCap(n, cap int) int {
+	if n > cap {
+		return cap
+	}
+	return n
+}
